@@ -71,6 +71,11 @@ VARIANTS = {
              "-DSVT_AV1_VERIF -g1 -fsanitize=address,undefined -fno-sanitize-recover=undefined "
              "-fno-omit-frame-pointer -fno-sanitize=alignment,shift-base,shift-exponent",
              "-fsanitize=address,undefined"),
+    # ASan stops at the first report, UBSan reports every site once and continues (C11 collects all sites of a run)
+    "san": ("Release",
+            "-DSVT_AV1_VERIF -g1 -fsanitize=address,undefined -fsanitize-recover=undefined "
+            "-fno-omit-frame-pointer -fno-sanitize=alignment,shift-base,shift-exponent",
+            "-fsanitize=address,undefined"),
     "nohooks": ("Release", "-g1", ""),
 }
 
